@@ -503,6 +503,29 @@ def _type_check_array_size(array_type, source_file_name, errors):
         )
 
 
+def _type_check_enum_value(enum_value, type_definition, source_file_name, errors):
+    """Checks that an enum value is an integer (or another value of its enum)."""
+    value_type = ir_data_utils.reader(enum_value.value).type
+    if value_type.which_type == "integer":
+        return
+    if (
+        value_type.which_type == "enumeration"
+        and value_type.enumeration.name.canonical_name
+        == type_definition.name.canonical_name
+    ):
+        # `FOO = BAR`, where BAR is another value of the same enum.
+        return
+    errors.append(
+        [
+            error.error(
+                source_file_name,
+                enum_value.value.source_location,
+                "Enum value must be an integer.",
+            )
+        ]
+    )
+
+
 def _type_check_field_location(location, source_file_name, errors):
     _type_check_integer(location.start, source_file_name, errors, "Start of field")
     _type_check_integer(location.size, source_file_name, errors, "Size of field")
@@ -665,6 +688,12 @@ def check_types(ir):
         ir,
         [ir_data.Field],
         _type_check_field_existence_condition,
+        parameters={"errors": errors},
+    )
+    traverse_ir.fast_traverse_ir_top_down(
+        ir,
+        [ir_data.EnumValue],
+        _type_check_enum_value,
         parameters={"errors": errors},
     )
     traverse_ir.fast_traverse_ir_top_down(
